@@ -141,10 +141,25 @@ def reorder(values, order):
     return values
 
 
-def conv_points(P, num):
-    """P: list of scalars, or list of lists (vectors)."""
+def conv_points(P, num, form=None):
+    """P: list of scalars, or list of lists (vectors).  form="arrays": a list of separate one-dimensional arrays in
+    which equal points are one and the same object (a closed polygon written [P0, P1, P2, P0])."""
     if not isinstance(P[0], (list, tuple)):
         return [conv_val(x, num) for x in P]
+    if form == "arrays":
+        seen, out = {}, []
+        for pt in P:
+            key = tuple(pt)
+            if key not in seen:
+                if num in EXACT:
+                    arr = np.empty(len(pt), dtype=object)
+                    for j, c in enumerate(pt):
+                        arr[j] = conv_val(c, num)
+                else:
+                    arr = np.array([float(c) for c in pt], dtype="float64")
+                seen[key] = arr
+            out.append(seen[key])
+        return out
     if num in EXACT:
         arr = np.empty((len(P), len(P[0])), dtype=object)
         for i, pt in enumerate(P):
@@ -158,7 +173,7 @@ def build_curve(case):
     """case: {'U','P','w','num'} -> Curve."""
     num = case.get("num", "frac")
     U = [conv_knot(u, num) for u in case["U"]]
-    P = conv_points(case["P"], num)
+    P = conv_points(case["P"], num, case.get("ptform"))
     w = None if case.get("w") is None else [conv_val(x, num) for x in case["w"]]
     return Curve(U, P, w)
 
@@ -186,7 +201,7 @@ def build_curve_history(case, mode, use=default_use):
         return build_curve(case)
     num = case.get("num", "frac")
     U = [conv_knot(u, num) for u in case["U"]]
-    P = conv_points(case["P"], num)
+    P = conv_points(case["P"], num, case.get("ptform"))
     w = None if case.get("w") is None else [conv_val(x, num) for x in case["w"]]
     one = conv_val(F(1), num)
     if isinstance(case["P"][0], (list, tuple)):
